@@ -506,8 +506,14 @@ SetField(st, old, new, pos, valid) ==
     ELSE IF valid # "valid" THEN (IF st.vlevel >= 3 THEN {Fail(st, "Error")} ELSE {Unmodelled(st)})
     ELSE {Ok([st EXCEPT !.lines[i] = new])}
 
+\* a line instance that already belongs to the Gfa is offered to add_line again: refused
+AddConnected(st, l) ==
+  IF \E i \in DOMAIN st.lines : Norm(st.lines[i]) = Norm(l) THEN {Fail(st, "Error")}
+  ELSE {Fail(st, "NotFoundError")}
+
 Step(st, op) ==
   CASE op.k = "add"   -> Add(st, op.l)
+    [] op.k = "addc"  -> AddConnected(st, op.l)
     [] op.k = "setf"  -> SetField(st, op.ls[1], op.ls[2], op.n, op.id2)
     [] op.k = "settag" -> SetTag(st, op.id, op.l)
     [] op.k = "deltag" -> DelTag(st, op.id, op.l)
